@@ -468,6 +468,346 @@ def unroll_table_loops(tree):
     return count[0]
 
 
+def split_parallel_assignments(tree):
+    """Normalisation: `a, b = x, y` (tuple display on both sides, same length, no star) becomes `a = x; b = y` when that is
+    the same thing: no later value reads a name an earlier target binds, and an attribute/subscript target is followed only
+    by values without calls that do not mention the target's root object.  Swaps and dependent forms stay as they are."""
+    count = [0]
+
+    def names(e):
+        return {x.id for x in ast.walk(e) if isinstance(x, ast.Name)}
+
+    def root(e):
+        while isinstance(e, (ast.Attribute, ast.Subscript)):
+            e = e.value
+        return e.id if isinstance(e, ast.Name) else None
+
+    def splittable(tg, vv):
+        for i, t in enumerate(tg.elts):
+            later = vv.elts[i + 1:]
+            if isinstance(t, ast.Name):
+                if any(t.id in names(v) for v in later):
+                    return False
+            elif isinstance(t, (ast.Attribute, ast.Subscript)):
+                r = root(t)
+                if r is None:
+                    return False
+                for v in later:
+                    if any(isinstance(x, (ast.Call, ast.Await, ast.Yield, ast.YieldFrom)) for x in ast.walk(v)):
+                        return False
+                    if ast.unparse(t) in ast.unparse(v):
+                        return False
+                if isinstance(t, ast.Subscript) and names(t.slice) & {x.id for tt in tg.elts[:i] for x in ast.walk(tt)
+                                                                      if isinstance(x, ast.Name) and isinstance(x.ctx, ast.Store)}:
+                    return False
+            else:
+                return False
+        return True
+
+    class T(ast.NodeTransformer):
+        def visit_Assign(self, n):
+            if len(n.targets) == 1 and isinstance(n.targets[0], ast.Tuple) and isinstance(n.value, ast.Tuple) and \
+                    len(n.targets[0].elts) == len(n.value.elts) >= 2 and \
+                    not any(isinstance(x, ast.Starred) for x in n.targets[0].elts + n.value.elts) and splittable(n.targets[0], n.value):
+                count[0] += 1
+                return [ast.copy_location(ast.Assign(targets=[t], value=v), n) for t, v in zip(n.targets[0].elts, n.value.elts)]
+            return n
+    T().visit(tree)
+    ast.fix_missing_locations(tree)
+    return count[0]
+
+
+def split_conditional_returns(tree):
+    """Normalisation: `return A if C else B` is the statement `if C: return A` / `else: return B` (nested conditional
+    expressions likewise), so that the path rules see the condition as a test and each alternative as the value of its own
+    return path.  Returns the number of statements rewritten."""
+    count = [0]
+
+    def split(ret):
+        v = ret.value
+        if isinstance(v, ast.IfExp):
+            a = ast.copy_location(ast.Return(value=v.body), ret)
+            b = ast.copy_location(ast.Return(value=v.orelse), ret)
+            node = ast.copy_location(ast.If(test=v.test, body=split(a), orelse=split(b)), ret)
+            return [node]
+        return [ret]
+
+    class T(ast.NodeTransformer):
+        def visit_Return(self, n):
+            if isinstance(n.value, ast.IfExp):
+                count[0] += 1
+                return split(n)
+            return n
+    T().visit(tree)
+    ast.fix_missing_locations(tree)
+    return count[0]
+
+
+def inline_bound_method_aliases(tree):
+    """Normalisation: a local bound exactly once, by a statement at the top level of its function, to a bound method
+    `r.m` / `r.x.m` of an object that is itself never rebound in the function (a parameter, `self`, or a local with a single
+    earlier binding; for `r.x.m` no store to `.x` anywhere in the function), and used only as the callee of calls that come
+    later in the same function (not in nested functions), is replaced at those calls by the attribute expression, and the
+    binding is dropped.  `add = result.append ... add(c)` is analysed as `result.append(c)`: caching a bound method in a local
+    (or undoing that) changes nothing for the rules.  Returns the number of aliases inlined."""
+    total = [0]
+
+    def own_nodes(fn):
+        stack = list(fn.body)
+        while stack:
+            x = stack.pop()
+            yield x
+            if isinstance(x, (ast.FunctionDef, ast.AsyncFunctionDef, ast.Lambda, ast.ClassDef)):
+                continue
+            stack.extend(ast.iter_child_nodes(x))
+
+    def chain(e):
+        parts = []
+        while isinstance(e, ast.Attribute):
+            parts.append(e.attr)
+            e = e.value
+        if isinstance(e, ast.Name) and 1 <= len(parts) <= 3:
+            return e.id, parts[::-1]
+        return None, None
+
+    def do_fn(fn):
+        params = {a.arg for a in ast.walk(fn.args) if isinstance(a, ast.arg)}
+        all_nodes = list(ast.walk(fn))
+        stores = {}
+        attr_stores = set()
+        escapes = set()
+        for x in all_nodes:
+            if isinstance(x, ast.Name) and isinstance(x.ctx, (ast.Store, ast.Del)):
+                stores.setdefault(x.id, []).append(x)
+            elif isinstance(x, (ast.Global, ast.Nonlocal)):
+                escapes |= set(x.names)
+            elif isinstance(x, ast.Attribute) and isinstance(x.ctx, (ast.Store, ast.Del)):
+                attr_stores.add(x.attr)
+        own = {id(x) for x in own_nodes(fn)}
+        nested_args = {a.arg for x in all_nodes if x is not fn and isinstance(x, (ast.FunctionDef, ast.AsyncFunctionDef, ast.Lambda))
+                       for a in ast.walk(x.args) if isinstance(a, ast.arg)}
+        cands = {}
+        for st in fn.body:
+            if not (isinstance(st, ast.Assign) and len(st.targets) == 1):
+                continue
+            tg, vv = st.targets[0], st.value
+            pairs = [(tg, vv)]
+            if isinstance(tg, ast.Tuple) and isinstance(vv, ast.Tuple) and len(tg.elts) == len(vv.elts):
+                pairs = list(zip(tg.elts, vv.elts))
+            for a, e in pairs:
+                if not isinstance(a, ast.Name):
+                    continue
+                root, parts = chain(e)
+                if root is None or a.id in params or a.id in escapes or len(stores.get(a.id, [])) != 1:
+                    continue
+                if a.id in nested_args or root in nested_args:
+                    continue
+                if root in escapes:
+                    continue
+                rs = stores.get(root, [])
+                if root in params or root in ('self', 'cls'):
+                    if rs:
+                        continue
+                elif not (len(rs) == 1 and rs[0].lineno < st.lineno and id(rs[0]) in own):
+                    continue
+                if any(pt in attr_stores for pt in parts[:-1]):
+                    continue
+                uses = [x for x in all_nodes if isinstance(x, ast.Name) and x.id == a.id and isinstance(x.ctx, ast.Load)]
+                callees = {id(c.func) for c in all_nodes if isinstance(c, ast.Call) and isinstance(c.func, ast.Name) and c.func.id == a.id}
+                # uses inside nested functions are fine too (neither the alias nor its root is ever rebound), as long as
+                # the nested function is defined after the alias
+                if not uses or any(id(u) not in callees or u.lineno <= st.lineno for u in uses):
+                    continue
+                cands[a.id] = (e, st)
+        if not cands:
+            return
+
+        class Sub(ast.NodeTransformer):
+            def visit_ClassDef(self, n):
+                return n
+
+            def visit_Call(self, c):
+                self.generic_visit(c)
+                if isinstance(c.func, ast.Name) and c.func.id in cands:
+                    c.func = ast.copy_location(copy.deepcopy(cands[c.func.id][0]), c.func)
+                    for x in ast.walk(c.func):
+                        ast.copy_location(x, c)
+                return c
+        new_body = []
+        for st in fn.body:
+            if isinstance(st, ast.Assign) and any(st is v[1] for v in cands.values()):
+                tg, vv = st.targets[0], st.value
+                if isinstance(tg, ast.Name):
+                    total[0] += 1
+                    continue
+                keep = [(a, e) for a, e in zip(tg.elts, vv.elts) if not (isinstance(a, ast.Name) and a.id in cands and cands[a.id][1] is st)]
+                total[0] += len(tg.elts) - len(keep)
+                if not keep:
+                    continue
+                if len(keep) == 1:
+                    st = ast.copy_location(ast.Assign(targets=[keep[0][0]], value=keep[0][1]), st)
+                else:
+                    st = ast.copy_location(ast.Assign(
+                        targets=[ast.copy_location(ast.Tuple(elts=[a for a, _ in keep], ctx=ast.Store()), tg)],
+                        value=ast.copy_location(ast.Tuple(elts=[e for _, e in keep], ctx=ast.Load()), vv)), st)
+            new_body.append(st)
+        fn.body = new_body or [ast.copy_location(ast.Pass(), fn)]
+        Sub().visit(fn)
+    for fn in [x for x in ast.walk(tree) if isinstance(x, (ast.FunctionDef, ast.AsyncFunctionDef))]:
+        do_fn(fn)
+    ast.fix_missing_locations(tree)
+    return total[0]
+
+
+_CONSTRUCTORS = {'__init__', '__new__'}
+
+
+def inline_attribute_aliases(tree):
+    """Normalisation: a local bound exactly once, by a statement at the top level of its function, to an attribute chain
+    `r.a` / `r.a.b` whose attribute names are (module-wide) assigned only inside constructors, with `r` a parameter / self / a
+    single-binding earlier local, and only read afterwards, is replaced by the chain at its reads and the binding is dropped:
+    `data = self.data ... data[k] = v` is analysed as `self.data[k] = v`.  (An attribute that some method re-assigns is left
+    alone: there the local may keep the old object alive.)  Not applied inside constructors.  Returns the number inlined."""
+    stored_in = {}
+    for fn in [x for x in ast.walk(tree) if isinstance(x, (ast.FunctionDef, ast.AsyncFunctionDef))]:
+        for x in ast.walk(fn):
+            if isinstance(x, ast.Attribute) and isinstance(x.ctx, (ast.Store, ast.Del)):
+                stored_in.setdefault(x.attr, set()).add(fn.name)
+            elif isinstance(x, ast.Call) and isinstance(x.func, ast.Name) and x.func.id in ('setattr', 'delattr') and len(x.args) >= 2:
+                if isinstance(x.args[1], ast.Constant) and isinstance(x.args[1].value, str):
+                    stored_in.setdefault(x.args[1].value, set()).add(fn.name)
+                else:
+                    stored_in.setdefault('*', set()).add(fn.name)
+    for x in ast.walk(tree):
+        # stores at module / class level (outside functions) count as "anywhere"
+        pass
+    dynamic = bool(stored_in.get('*', set()) - _CONSTRUCTORS)
+    total = [0]
+
+    def chain(e):
+        parts = []
+        while isinstance(e, ast.Attribute):
+            parts.append(e.attr)
+            e = e.value
+        if isinstance(e, ast.Name) and 1 <= len(parts) <= 3:
+            return e.id, parts[::-1]
+        return None, None
+
+    def do_fn(fn):
+        if fn.name in _CONSTRUCTORS or dynamic:
+            return
+        params = {a.arg for a in ast.walk(fn.args) if isinstance(a, ast.arg)}
+        all_nodes = list(ast.walk(fn))
+        stores = {}
+        escapes = set()
+        for x in all_nodes:
+            if isinstance(x, ast.Name) and isinstance(x.ctx, (ast.Store, ast.Del)):
+                stores.setdefault(x.id, []).append(x)
+            elif isinstance(x, (ast.Global, ast.Nonlocal)):
+                escapes |= set(x.names)
+        nested_args = {a.arg for x in all_nodes if x is not fn and isinstance(x, (ast.FunctionDef, ast.AsyncFunctionDef, ast.Lambda))
+                       for a in ast.walk(x.args) if isinstance(a, ast.arg)}
+        top = {id(st) for st in fn.body}
+        cands = {}
+        for st in fn.body:
+            if not (isinstance(st, ast.Assign) and len(st.targets) == 1 and isinstance(st.targets[0], ast.Name)):
+                continue
+            a, e = st.targets[0], st.value
+            root, parts = chain(e)
+            if root is None or a.id in params or a.id in escapes or a.id in nested_args or root in nested_args or root in escapes:
+                continue
+            if len(stores.get(a.id, [])) != 1:
+                continue
+            rs = stores.get(root, [])
+            if root in params or root in ('self', 'cls'):
+                if rs:
+                    continue
+            else:
+                continue            # only chains rooted at a parameter (self, other, ...)
+            if any(stored_in.get(pt, set()) - _CONSTRUCTORS for pt in parts):
+                continue
+            uses = [x for x in all_nodes if isinstance(x, ast.Name) and x.id == a.id and isinstance(x.ctx, ast.Load)]
+            if not uses or any(u.lineno <= st.lineno for u in uses):
+                continue
+            cands[a.id] = (e, st)
+        if not cands:
+            return
+
+        class Sub(ast.NodeTransformer):
+            def visit_ClassDef(self, n):
+                return n
+
+            def visit_Name(self, n):
+                if isinstance(n.ctx, ast.Load) and n.id in cands:
+                    new = copy.deepcopy(cands[n.id][0])
+                    for x in ast.walk(new):
+                        ast.copy_location(x, n)
+                    return new
+                return n
+        fn.body = [st for st in fn.body if not any(st is v[1] for v in cands.values())] or [ast.copy_location(ast.Pass(), fn)]
+        total[0] += len(cands)
+        Sub().visit(fn)
+    for fn in [x for x in ast.walk(tree) if isinstance(x, (ast.FunctionDef, ast.AsyncFunctionDef))]:
+        do_fn(fn)
+    ast.fix_missing_locations(tree)
+    return total[0]
+
+
+_KNOWN_SIGNATURES = {'heappush': ('heap', 'item'), 'heappop': ('heap',), 'heapify': ('x',), 'heapreplace': ('heap', 'item'),
+                     'heappushpop': ('heap', 'item'), 'insort': ('a', 'x'), 'insort_right': ('a', 'x'), 'insort_left': ('a', 'x')}
+
+
+def expand_method_wrappers(tree):
+    """Normalisation: a class-level `name = staticmethod(f)` / `name = classmethod(f)` where f is a module-level function of the
+    same module with plain positional parameters, or a stdlib function whose signature is in the small table above, is replaced
+    by the method it denotes: `@staticmethod def name(<params>): return f(<params>)`.  A trivial wrapper method and a direct
+    binding of the wrapped function are thereby the same thing for every rule.  Returns the number of bindings expanded."""
+    funcs = {}
+    for st in tree.body:
+        if isinstance(st, ast.FunctionDef) and not st.args.vararg and not st.args.kwarg and not st.args.kwonlyargs and \
+                not st.args.posonlyargs and not st.decorator_list:
+            funcs[st.name] = ([a.arg for a in st.args.args], len(st.args.defaults))
+    n = 0
+    for cls in [x for x in ast.walk(tree) if isinstance(x, ast.ClassDef)]:
+        for i, st in enumerate(list(cls.body)):
+            if not (isinstance(st, ast.Assign) and len(st.targets) == 1 and isinstance(st.targets[0], ast.Name) and
+                    isinstance(st.value, ast.Call) and isinstance(st.value.func, ast.Name) and
+                    st.value.func.id in ('staticmethod', 'classmethod') and len(st.value.args) == 1 and not st.value.keywords and
+                    isinstance(st.value.args[0], ast.Name)):
+                continue
+            f = st.value.args[0].id
+            if f in funcs and funcs[f][1] == 0:
+                params = list(funcs[f][0])
+            elif f in _KNOWN_SIGNATURES and f not in funcs:
+                params = list(_KNOWN_SIGNATURES[f])
+            else:
+                continue
+            kind = st.value.func.id
+            if kind == 'classmethod':
+                if not params:
+                    continue
+                call_args = [ast.Name(id=a, ctx=ast.Load()) for a in params]
+                params = ['cls'] + params[1:]
+                call_args[0] = ast.Name(id='cls', ctx=ast.Load())
+            else:
+                call_args = [ast.Name(id=a, ctx=ast.Load()) for a in params]
+            fn = ast.FunctionDef(
+                name=st.targets[0].id,
+                args=ast.arguments(posonlyargs=[], args=[ast.arg(arg=a) for a in params], vararg=None, kwonlyargs=[],
+                                   kw_defaults=[], kwarg=None, defaults=[]),
+                body=[ast.Return(value=ast.Call(func=ast.Name(id=f, ctx=ast.Load()), args=call_args, keywords=[]))],
+                decorator_list=[ast.Name(id=kind, ctx=ast.Load())], returns=None, type_comment=None, type_params=[])
+            ast.copy_location(fn, st)
+            for x in ast.walk(fn):
+                if not hasattr(x, 'lineno') and isinstance(x, (ast.expr, ast.stmt, ast.arg)):
+                    ast.copy_location(x, st)
+            ast.fix_missing_locations(fn)
+            fn.end_lineno = getattr(st, 'end_lineno', st.lineno)
+            cls.body[cls.body.index(st)] = fn
+            n += 1
+    return n
+
+
 class Module:
     def __init__(self, name, path, relpath, source):
         self.name = name
@@ -477,6 +817,11 @@ class Module:
         self.tree = ast.parse(source, filename=path)
         self.inlined_constants = inline_literal_constants(self.tree)
         self.unrolled_table_loops = unroll_table_loops(self.tree)
+        self.expanded_method_wrappers = expand_method_wrappers(self.tree)
+        self.split_parallel_assignments = split_parallel_assignments(self.tree)
+        self.inlined_method_aliases = inline_bound_method_aliases(self.tree)
+        self.inlined_attribute_aliases = inline_attribute_aliases(self.tree)
+        self.split_conditional_returns = split_conditional_returns(self.tree)
         self.classes = {}
         self.functions = {}
         self.assigns = {}         # name -> list of value exprs, in order
